@@ -1,18 +1,17 @@
 From Coq Require Import NArith ZArith List Bool FMapPositive Lia String.
 From Clemens Require Import Base.Res Base.Word Pos.Types Att.Attacks Pos.Position Eval.Eval
      Search.TT Search.Ordering Search.Negamax Search.GoInst.
+From ClemensGen Require Import GoConsts.
 From Clemens.C13Mate Require Import MateExamples.
 Import ListNotations.
 Open Scope Z_scope.
 Definition start_fen : string := "rnbqkbnr/pppppppp/8/8/8/8/PPPPPPPP/RNBQKBNR w KQkq - 0 1".
 Definition start := root_of start_fen.
-Definition obs {A} (x : sresult A * sst) := (fst x, s_out (snd x), s_nodes (snd x), s_polls (snd x), st_he (s_tt (snd x)), s_pv (snd x), List.length (s_cache (snd x))).
-Definition run1 := go_search 20 200 true (go_empty_sst None) start 3.
-Time Eval vm_compute in obs run1.
-Definition run2 := go_search 20 200 true (go_init_sst go_tt_init (s_cache (snd run1)) [] None) start 3.
-Time Eval vm_compute in obs run2.
-Definition junk (c : ecache) : ecache := map (fun e => (fst e, (fst (snd e), 900))) c.
-Definition run3 := go_search 20 200 true (go_init_sst go_tt_init (junk (s_cache (snd run1))) [] None) start 3.
-Time Eval vm_compute in obs run3.
-Definition run4 := go_search 20 200 true (go_init_sst go_tt_init [hd (0%N,(0%N,0)) (junk (s_cache (snd run1)))] [] None) start 3.
-Time Eval vm_compute in obs run4.
+Definition s1 := snd (go_search 20 200 true (go_empty_sst None) start 3).
+Definition kids := match legal_moves go_keys start with Ok l => l | _ => [] end.
+Definition kid (m : N) := match make_move go_keys start m with Ok q => q | _ => start end.
+Time Eval vm_compute in (hash start, tt_get tt_numberOfBuckets eval_INF (s_tt s1) (hash start) (-32767) 32767 3 0).
+Time Eval vm_compute in map (fun m => (m, hash (kid m), tt_get tt_numberOfBuckets eval_INF (s_tt s1) (hash (kid m)) 0 1 2 1)) kids.
+Definition s2 := go_init_sst (s_tt s1) (s_cache s1) [] None.
+Definition run2 := go_search 20 200 true s2 start 3.
+Time Eval vm_compute in (fst run2, s_out (snd run2), s_nodes (snd run2), st_he (s_tt (snd run2))).
